@@ -51,9 +51,6 @@ def swarm_cfg(rng, *, base=None, off=(), on=(), p_feature=0.6, p_kind=0.75):
             cfg[f] = True
     if base:
         cfg.update(base)
-    if "shape_change" not in on and not (base and "shape_change" in base):
-        # open finding KF-scalar-at-section-prefix: only a minority of the runs generate such dictionaries
-        cfg["shape_change"] = cfg["shape_change"] and rng.random() < 0.25
     if not cfg["tmpl"]:
         cfg["tmpl_in_container"] = cfg["dangling"] = cfg["tmpl_preset"] = False
     return cfg
